@@ -194,6 +194,29 @@ impl PartitionReplicatorActor {
 
         let breaker = self.breaker.clone();
 
+        #[cfg(feature = "verif")]
+        if let (Some(transport), Some(partition_ref)) =
+            (crate::verif::transport(), partition_ref.upgrade())
+        {
+            // simulated network: the request goes to the installed transport
+            let breaker = self.breaker.clone();
+            tokio::spawn(async move {
+                let result = breaker
+                    .call(transport.partition_sync(
+                        coordinator_ref,
+                        crate::verif::SyncRequest {
+                            partition_id,
+                            from_seq,
+                            to_seq,
+                        },
+                    ))
+                    .await;
+
+                let _ = partition_ref.tell(PartitionSyncResponse { result }).await;
+            });
+            return;
+        }
+
         if let Some(partition_ref) = partition_ref.upgrade() {
             tokio::spawn(async move {
                 let result = breaker
